@@ -105,6 +105,10 @@ package dns
 //@   callsite "PutUint16" ptrword: 0 <= pointer && pointer < 16384 && arg2 == 49152 + pointer [C04]
 //@   callsite "find" findkey: same(arg1, s[compBegin:]) [C04]
 //@   callsite "insert" inskey: same(arg1, s[compBegin:]) [C04]
+// the root is never looked up or registered as a compression target, and always occupies its one octet
+//@   callsite "find" findroot: !(ls - begin == 1 && (bs == nil ? s[begin] : bs[begin]) == 46) [C04]
+//@   callsite "insert" insroot: !(ls - begin == 1 && (bs == nil ? s[begin] : bs[begin]) == 46) [C04]
+//@   ensures rootlen: err == nil && len(s) == 1 ==> off1 == off + 1 [C04]
 //@   requires 0 <= off
 //@   writes msg
 //@   modifies MS.mapLstringJint MS.mapLstringJuint16
